@@ -391,7 +391,7 @@ package genetics
 //@   ensures_local [gene2] result0 ==> fresh(gene2) && gene2.IsEnabled && gene2.Link.ConnectionWeight == old(gene.Link.ConnectionWeight) && gene2.Link.InNode == node && gene2.Link.OutNode == old(gene.Link.OutNode) && !gene2.Link.IsRecurrent
 //@   ensures_local [node] result0 ==> fresh(node) && node.NeuronType == network.HiddenNeuron
 //@   ensures_local [novelNumbers] result0 && !innovationFound ==> gene1.InnovationNum != gene2.InnovationNum && sel(gIssued, gene1.InnovationNum) && !sel(old(gIssued), gene1.InnovationNum) && sel(gIssued, gene2.InnovationNum) && !sel(old(gIssued), gene2.InnovationNum)
-//@   ensures_local [matchedNumbers] result0 && innovationFound ==> gene1.InnovationNum == inn.InnovationNum && gene2.InnovationNum == inn.InnovationNum2 && node.Id == inn.NewNodeId && inn.InNodeId == old(gene.Link.InNode.Id) && inn.OutNodeId == old(gene.Link.OutNode.Id) && inn.OldInnovNum == gene.InnovationNum
+//@   ensures_local [matchedNumbers] result0 && innovationFound ==> gene1.InnovationNum == inn.InnovationNum && gene2.InnovationNum == inn.InnovationNum2 && node.Id == inn.NewNodeId && inn.InNodeId == old(gene.Link.InNode.Id) && inn.OutNodeId == old(gene.Link.OutNode.Id) && inn.OldInnovNum == gene.InnovationNum && inn.innovationType == newNodeInnType
 //@   ensures_local [inserted1] result0 ==> (exists a :: 0 <= a && a < len(g.Genes) && g.Genes[a] == gene1)
 //@   ensures_local [inserted2] result0 ==> (exists b :: 0 <= b && b < len(g.Genes) && g.Genes[b] == gene2)
 //@   ensures_local [insertedNode] result0 ==> (exists c :: 0 <= c && c < len(g.Nodes) && g.Nodes[c] == node)
@@ -799,7 +799,7 @@ package genetics
 //@   mode nosafety
 //@   assume_pre Intn
 //@   assert [novelNumber] !innovationFound ==> sel(gIssued, arg1.InnovationNum) && !sel(old(gIssued), arg1.InnovationNum) @ before 1 geneInsert
-//@   assert [matchedNumber] innovationFound ==> arg1.InnovationNum == inn.InnovationNum && inn.InNodeId == node1.Id && inn.OutNodeId == node2.Id && inn.IsRecurrent == doRecur @ before 1 geneInsert
+//@   assert [matchedNumber] innovationFound ==> arg1.InnovationNum == inn.InnovationNum && inn.InNodeId == node1.Id && inn.OutNodeId == node2.Id && inn.IsRecurrent == doRecur && inn.innovationType == newLinkInnType @ before 1 geneInsert
 //@   assert [recorded] arg1.innovationType == newLinkInnType && arg1.InNodeId == node1.Id && arg1.OutNodeId == node2.Id && arg1.IsRecurrent == doRecur @ before 1 StoreInnovation
 //@   assert [newGene] arg1 != nil && fresh(arg1) && arg1.Link.InNode == node1 && arg1.Link.OutNode == node2 && arg1.Link.IsRecurrent == doRecur && arg1.IsEnabled @ before 1 geneInsert
 //@   requires genomeShape(g) && !isNilIface(innovations) && opts != nil
@@ -952,7 +952,7 @@ package genetics
 //@   assert [recorded] arg1.innovationType == newLinkInnType && arg1.OutNodeId == output.Id && !arg1.IsRecurrent @ before 1 StoreInnovation
 //@   assert [fromTheSensor] arg1 != nil && fresh(arg1) && arg1.Link.InNode == gTheSensor && arg1.Link.OutNode == output && !sensorNode(output) && !arg1.Link.IsRecurrent && arg1.IsEnabled @ before 1 geneInsert
 //@   assert [novelNumber] !innovationFound ==> sel(gIssued, arg1.InnovationNum) && !sel(old(gIssued), arg1.InnovationNum) @ before 1 geneInsert
-//@   assert [matchedNumber] innovationFound ==> arg1.InnovationNum == inn.InnovationNum && inn.InNodeId == arg1.Link.InNode.Id && inn.OutNodeId == output.Id && !inn.IsRecurrent @ before 1 geneInsert
+//@   assert [matchedNumber] innovationFound ==> arg1.InnovationNum == inn.InnovationNum && inn.InNodeId == arg1.Link.InNode.Id && inn.OutNodeId == output.Id && !inn.IsRecurrent && inn.innovationType == newLinkInnType @ before 1 geneInsert
 //@   ensures [nodesKept] sameSlice(g.Nodes, old(g.Nodes)) && unchanged(g.Nodes)
 //@   ensures [onlyAdds] len(g.Genes) >= old(len(g.Genes))
 //@   ensures_local [unconnectedSensor] result0 ==> sensor != nil && sensorNode(sensor) && (forall i :: 0 <= i && i < old(len(g.Genes)) ==> old(g.Genes[i]).Link.InNode.Id != sensor.Id)
